@@ -18,8 +18,8 @@ Src == <<"A","src">>
 MCOut == <<"A","out">>
 D7 == DirNode(755, 1)
 
-MCNameOrder == <<"", " ", "-n", ".", "..", "..n", ".git", ".terraform", ".terraformignore", "A", "a", "a+b", "aab", "ab", "b", "big", "c2", "cw", "e", "ef", "ext", "ext2",
-                 "f", "fifo", "g", "k", "l", "la", "lb", "lc", "ld", "m", "modules", "out", "p", "q", "ra", "rl", "rl2", "s", "s.n", "src", "srcx", "t", "x", "y", "z">>
+MCNameOrder == <<"", " ", "-n", ".", "..", "..n", ".git", ".terraform", ".terraformignore", "A", "a", "a+b", "aab", "ab", "b", "big", "c2", "cw", "e", "e3", "ef", "ext", "ext2",
+                 "f", "fifo", "g", "k", "l", "la", "la2", "lb", "lc", "ld", "m", "modules", "out", "p", "q", "ra", "rl", "rl2", "s", "s.n", "src", "srcx", "t", "x", "y", "z">>
 MCNameChars == [n \in { MCNameOrder[i] : i \in DOMAIN MCNameOrder } |->
    CASE n = ".git" -> DotGit [] n = ".terraform" -> DotTerraform [] n = "modules" -> Modules
      [] n = ".terraformignore" -> <<".","t","e","r","r","a","f","o","r","m","i","g","n","o","r","e">>
@@ -27,7 +27,7 @@ MCNameChars == [n \in { MCNameOrder[i] : i \in DOMAIN MCNameOrder } |->
      [] n = "fifo" -> <<"f","i","f","o">> [] n = "la" -> <<"l","a">> [] n = "lb" -> <<"l","b">> [] n = "out" -> <<"o","u","t">>
      [] n = "src" -> <<"s","r","c">> [] n = "srcx" -> <<"s","r","c","x">> [] n = "cw" -> <<"c","w">> [] n = "rl" -> <<"r","l">>
      [] n = "..n" -> <<".",".","n">> [] n = "s.n" -> <<"s",".","n">> [] n = "rl2" -> <<"r","l","2">> [] n = "ra" -> <<"r","a">> [] n = ".." -> <<".",".">>
-     [] n = "-n" -> <<"-","n">> [] n = "big" -> <<"b","i","g">> [] n = "lc" -> <<"l","c">> [] n = "ld" -> <<"l","d">>
+     [] n = "-n" -> <<"-","n">> [] n = "big" -> <<"b","i","g">> [] n = "la2" -> <<"l","a","2">> [] n = "e3" -> <<"e","3">> [] n = "c2" -> <<"c","2">> [] n = "lc" -> <<"l","c">> [] n = "ld" -> <<"l","d">>
      [] OTHER -> <<n>>]
 
 ArenaBase ==
@@ -37,6 +37,8 @@ ArenaBase ==
   @@ (<<"A","ext2">> :> D7) @@ (<<"A","ext2","y">> :> FileNode(644, 1, 4))
   @@ (<<"A","ef">> :> FileNode(600, 4, 5))
   @@ (<<"A","cw","ef">> :> FileNode(644, 1, 7))     \* what ../cw/rl/../ef names lexically (physically it is A/ef: rl -> ../src)
+  @@ (<<"A","cw","la2">> :> LinkNode(<<"..">>))      \* A/cw/la2/src names the source directory through a symlinked ancestor
+  @@ (<<"ef">> :> FileNode(644, 1, 1))               \* what ../../ef names physically from A/src
   @@ (<<"A","fifo">> :> FifoNode(644, 1))
   @@ (<<"A","la">> :> LinkNode(<<"lb">>)) @@ (<<"A","lb">> :> LinkNode(<<"la">>))
   @@ (<<"A","lc">> :> LinkNode(<<"","A","ld">>)) @@ (<<"A","ld">> :> LinkNode(<<"","A","lc">>))      \* a cycle with absolute targets
@@ -134,6 +136,10 @@ SpellTree == TreeCore(2, 755, 644) @@ (<<"A","src","l">> :> LinkNode(<<"s","g">>
              \* out of the tree through a relative target that is itself a relative link (two hops): ../ext/k -> ../ext2
              @@ (<<"A","src","c2">> :> LinkNode(<<"..","ext","k">>)) @@ (<<"A","ext","k">> :> LinkNode(<<"..","ext2">>))
              @@ (Src \o <<".terraformignore">> :> FileNode(644, 2, RuleFileC)) @@ ArenaBase
+\* the same tree with a link that climbs above the root (only explored with dereferencing, canonically and through
+\* the symlinked ancestor A/cw/la2)
+SpellTreeA == (<<"A","src","e3">> :> LinkNode(<<"..","..","ef">>)) @@ SpellTree
+AncSpellings == { [cwd |-> <<"A">>, sp |-> <<"", "A", "cw", "la2", "src">>], [cwd |-> <<"A","cw">>, sp |-> <<"la2", "src">>] }
 SpellRules == << SR(FALSE, FALSE, TRUE, <<<<"s">>>>), SR(TRUE, FALSE, FALSE, <<<<"s">>, <<"g">>>>) >>
 Canon == [cwd |-> <<"A">>, sp |-> <<"", "A", "src">>]
 Spellings ==
@@ -166,14 +172,21 @@ KF16Class(f, cwd, sp, st, out, canon) ==
   IF r.st = "ok" /\ f[r.p].k = "l"
      /\ ~( IsAbsT(f[r.p].tgt) /\ StripTrail(sp) = sp
            /\ LET t == ResAbs(f, JoinClean(Root, f[r.p].tgt), FALSE) IN t.st = "ok" /\ f[t.p].k = "d" )
-  THEN "KF-C16-root-given-as-symlink" ELSE ""
+  THEN "KF-C16-root-given-as-symlink"
+  \* a symlinked ancestor in the spelling and, in the tree, a link whose relative target climbs above the root: link
+  \* targets are joined lexically onto the spelled path but opened physically
+  ELSE IF (\E k \in 1..(Len(StripTrail(sp)) - 1) :
+              LET q == Res(f, IF IsAbsT(sp) THEN Root ELSE cwd, SubSeq(StripTrail(sp), 1, k), FUEL, FALSE) IN q.st = "ok" /\ f[q.p].k = "l")
+          /\ \E p \in DOMAIN f : StrictlyUnder(p, Src) /\ f[p].k = "l" /\ ~IsAbsT(f[p].tgt)
+                                   /\ ~Under(JoinClean(<<"#root">> \o SubSeq(Parent(p), Len(Src) + 1, Len(p) - 1), f[p].tgt), <<"#root">>)
+  THEN "KF-C16-symlinked-ancestor-and-climbing-link" ELSE ""
 
 \* ---- degenerate rule lines (C19): every line of length <= 2 over a hostile character set ----
 LineChars == { " ", "!", "#", "/", "*", "\\", "a", "[", "?", "\t" }
 RawLines == { <<c>> : c \in LineChars } \cup { <<c, d>> : c \in LineChars, d \in LineChars }
 RawFiles == { <<l>> : l \in RawLines } \cup { <<l, <<"b">>>> : l \in { <<"!">>, <<" ">>, <<"[">>, <<"a", "[">>, <<"\\">>, <<"!", "[">> } }
 
-Trees == CASE Universe \in SpellUs -> { SpellTree } [] Universe = "safety" -> SafetyTrees(TL, TK, TM)
+Trees == CASE Universe = "spell" -> { SpellTree, SpellTreeA } [] Universe = "rootcyc" -> { SpellTree } [] Universe = "safety" -> SafetyTrees(TL, TK, TM)
            [] Universe = "safetyq" -> SafetyTrees(TLq, TKq, TMq)
            [] Universe = "rt" -> RTTrees
            [] Universe = "judge" -> { ArenaBase }
@@ -282,9 +295,10 @@ DoSpell ==
   /\ ~call /\ Universe \in SpellUs
   \* api: a Packer value with options, or the package-level Pack(src, w, dereference) (always applies the rule
   \* file, no allow-list), which is only explored overlapping with another package-level Pack call
-  /\ \E s \in Spellings \cup CycSpellings, pre \in Pres, conc \in BOOLEAN, ig \in BOOLEAN, api \in {"packer", "packer-deref", "legacy-deref", "legacy-plain"} :
+  /\ \E s \in Spellings \cup CycSpellings \cup AncSpellings, pre \in Pres, conc \in BOOLEAN, ig \in BOOLEAN, api \in {"packer", "packer-deref", "legacy-deref", "legacy-plain"} :
        /\ (Universe = "spell" /\ api \in {"legacy-deref", "legacy-plain"} => (conc /\ ig /\ s \in LegacySpellings /\ pre \in LegacyPres))
        /\ (api = "packer-deref" => (Universe = "spell" /\ pre = <<>> /\ ~conc /\ ~ig))        \* dereferencing under every spelling
+       /\ (pfs = SpellTreeA => (api = "packer-deref" /\ s \in AncSpellings \cup {Canon}))
        /\ (Universe = "rootcyc" => (s \in CycSpellings /\ pre = <<>> /\ ~conc /\ (api # "packer" => ig)))
        /\ LET opts == IF api = "packer" THEN [ign |-> ig, deref |-> FALSE, allow |-> {}, allowrel |-> { <<"..","ext">> }]
                    ELSE IF api = "packer-deref" THEN [ign |-> FALSE, deref |-> TRUE, allow |-> {}, allowrel |-> {}]
